@@ -193,19 +193,20 @@ impl Grid {
             let max = (1u32 << self.depth) - 1;
             (v as u32 * 65535 / max) as u16
         };
+        let kmask: u32 = (1u32 << self.depth) - 1;
         self.samples
             .chunks_exact(c)
             .map(|p| match self.ct {
                 0 => {
-                    let keyed = self.trns.as_ref().map_or(false, |t| t[0] == p[0]);
+                    // decoders use only the low `depth` bits of the key (PNG spec, tRNS)
+                    let keyed = self.trns.as_ref().map_or(false, |t| (t[0] as u32 & kmask) as u16 == p[0]);
                     let g = scale(p[0]);
                     [g, g, g, if keyed { 0 } else { 65535 }]
                 }
                 2 => {
-                    let keyed = self
-                        .trns
-                        .as_ref()
-                        .map_or(false, |t| t[0] == p[0] && t[1] == p[1] && t[2] == p[2]);
+                    let keyed = self.trns.as_ref().map_or(false, |t| {
+                        (0..3).all(|k| (t[k] as u32 & kmask) as u16 == p[k])
+                    });
                     [
                         scale(p[0]),
                         scale(p[1]),
